@@ -20,7 +20,7 @@ func VerifDialOnce() {
 		}
 		return conn, nil
 	}
-	rc := NewClient("rs:1", RegionClient, 2, 0, "user", 0, nil, dialer, nil)
+	rc := NewClient("rs:1", RegionClient, 2, 0, "user", 0, nil, dialer, vLogger())
 	n := verifParam("CALLERS")
 	errs := make([]error, n)
 	done := make(chan struct{}, n)
